@@ -138,12 +138,28 @@ CHECKS = {
             "SQLite durability of committed transactions trusted; PRAGMA synchronous=OFF on driver-built connections; crash "
             "points are the commit boundaries.",
             "DESIGN.md section 4 C14", "update"),
+    "C01": ("model_checking",
+            "TLA+ state machine of the name reader model-checked by TLC against a declarative meaning of names in messages "
+            "(termination variant, linear work, bounds, 63/255 limits); every TLC-enumerated (buffer, offset) replayed through "
+            "Name::read; mutated/random/adversarial inputs through every network entry point judged by a TLA+ monitor",
+            "The compression-pointer machinery -- the only place where decoding can fail to terminate -- is decided exhaustively "
+            "in a small scope: TLC proves the lexicographic variant, the work bound and agreement with RFC 1035 4.1.4 for every "
+            "buffer of <= 4/5 octets over an alphabet of pointers, reserved forms and label lengths at every offset, and the real "
+            "Name::read is run on every one of those inputs. Totality of the ~35 RDATA decoders, Message, the server-side "
+            "Request and Record on arbitrary bytes is explored: seeded mutation of valid messages of 30 RDATA types, random "
+            "bytes and adversarial 64 KiB packets under catch_unwind and a watchdog, every call judged by Trace_Wire.",
+            "Outside the exhaustive scope the claim is exploration-level (sampled inputs; the oracle is 'ok or err, within "
+            "bounds, limits respected, within the time budget'); memory consumption is not judged; whether valid names decode "
+            "to the right labels is judged by C02.",
+            "DESIGN.md section 4 C01", "wire"),
 }
 
 NOT_YET = {
 }
 
 ENGINES = [
+    {"name": "wire", "path": "spec/WireName.tla", "serves_properties": ["C01", "C02"],
+     "kind_free_text": "TLA+ spec (WireNameOps, WireName, MC_WireName, Gen_WireName, Trace_Wire, Trace_RoundTrip) + harness/src/bin/drive_wire.rs"},
     {"name": "update", "path": "spec/Update.tla", "serves_properties": ["C12", "C14"],
      "kind_free_text": "TLA+ spec (Serial, UpdateOps, Update, JournalOps, Journal, MC_/Gen_/Trace_Update, MC_/Gen_/Trace_Journal) + harness/src/bin/drive_update.rs"},
     {"name": "canonical", "path": "spec/Canonical.tla", "serves_properties": ["C05"],
